@@ -421,66 +421,81 @@ def orNow (x : Option Int) (n : Int) : Int :=
   | some v => if v == 0 then n else v
   | none => n
 
+/-! `_check_parsed` by stages, in source order; each stage is one top-level statement of the method -/
+
+/-- `if parsed["quarter"] is not None:` the first day of the quarter of the parsed year (else of `now`'s year) -/
+def checkQuarter (p : Parsed) (now : Now) : Except String (Option Int × Option Int × Option Int) :=
+  match p.quarter with
+  | some q =>
+    let y := p.year.getD now.year
+    if decide (1 ≤ q ∧ q ≤ 4) && decide (1 ≤ y ∧ y ≤ 9999) then .ok (some y, some (3 * q - 2), some 1)
+    else .error "ValueError"
+  | none => .ok (p.year, p.month, p.day)
+
+/-- `if parsed["day_of_year"] is not None:` `pendulum.parse(f"{year}-{doy:>03d}")` -/
+def checkDayOfYear (p : Parsed) (year : Int) (month day : Option Int) : Except String (Option Int × Option Int) :=
+  match p.day_of_year with
+  | some doy =>
+    -- the year is not zero-padded in the ISO string, so only four-digit years parse
+    if decide (1 ≤ doy ∧ doy ≤ Cal.daysInYear year) && decide (1000 ≤ year ∧ year ≤ 9999) then
+      .ok (some (Cal.ord2ymd (Cal.ymd2ord year 1 1 + doy - 1)).2.1, some (Cal.ord2ymd (Cal.ymd2ord year 1 1 + doy - 1)).2.2)
+    else .error "ValueError"
+  | none => .ok (month, day)
+
+/-- `if parsed["day_of_week"] is not None:` the day with that weekday in the Monday-based week of the date -/
+def checkDayOfWeek (p : Parsed) (now : Now) (year : Int) (month day : Option Int) :
+    Except String (Int × Option Int × Option Int) :=
+  match p.day_of_week with
+  | some dow =>
+    let m := orNow month now.month
+    let d := orNow day now.day
+    if !validYMD year m d then .error "ValueError"
+    else
+      -- source order: `start_of("week").subtract(days=1)` (OverflowError in the first week of year 1) comes before
+      -- `next(dow)` (ValueError for a weekday outside 0..6, OverflowError past 9999-12-31)
+      let ord := Cal.ymd2ord year m d
+      let monday := ord - (ord + 6) % 7
+      let r := monday + dow
+      if decide (monday - 1 < 1) then .error "OverflowError"
+      else if decide (dow < 0 ∨ dow > 6) then .error "ValueError"
+      else if decide (r > 3652059) then .error "OverflowError"
+      else .ok ((Cal.ord2ymd r).1, some (Cal.ord2ymd r).2.1, some (Cal.ord2ymd r).2.2)
+  | none => .ok (year, month, day)
+
+/-- `# Meridiem`: the hour on the 24-hour clock -/
+def checkMeridiem (p : Parsed) : Except String (Option Int) :=
+  match p.meridiem with
+  | some pm =>
+    match p.hour with
+    | none => .error "ValueError"
+    | some h =>
+      if meridiemTooLate h p.minute p.second p.microsecond then .error "ValueError"
+      else .ok (some (h % 12 + (if pm then 12 else 0)))
+  | none => .ok p.hour
+
+/-- the defaults for what is still missing, and the returned dictionary -/
+def checkFinal (p : Parsed) (now : Now) (year : Int) (month day hour : Option Int) : Result :=
+  ⟨year,
+   (match month with
+    | some m => m
+    | none => if p.year.isSome then orNow p.month 1 else orNow p.month now.month),
+   (match day with
+    | some d => d
+    | none => if p.year.isSome || p.month.isSome then orNow p.day 1 else orNow p.day now.day),
+   hour.getD 0, p.minute.getD 0, p.second.getD 0, p.microsecond.getD 0, p.tz⟩
+
 def checkParsed (p : Parsed) (now : Now) : Except String Result :=
   match p.timestamp with
   | some (secs, us) =>
     let (y, mo, d, h, mi, s) := LocalTime.localTime false LocalTime.pyTbl secs 0
     .ok ⟨y, mo, d, h, mi, s, us, none⟩
   | none => do
-    -- quarter
-    let (year, month, day) : Option Int × Option Int × Option Int ←
-      match p.quarter with
-      | some q =>
-        let y := p.year.getD now.year
-        if decide (1 ≤ q ∧ q ≤ 4) && decide (1 ≤ y ∧ y ≤ 9999) then
-          pure (some y, some (3 * q - 2), some 1)
-        else throw "ValueError"
-      | none => pure (p.year, p.month, p.day)
+    let (year, month, day) ← checkQuarter p now
     let year : Int := year.getD now.year
-    -- day of year: `pendulum.parse(f"{year}-{doy:>03d}")`
-    let (month, day) : Option Int × Option Int ←
-      match p.day_of_year with
-      | some doy =>
-        -- the year is not zero-padded in the ISO string, so only four-digit years parse
-        if decide (1 ≤ doy ∧ doy ≤ Cal.daysInYear year) && decide (1000 ≤ year ∧ year ≤ 9999) then
-          let (_, m, d) := Cal.ord2ymd (Cal.ymd2ord year 1 1 + doy - 1)
-          pure (some m, some d)
-        else throw "ValueError"
-      | none => pure (month, day)
-    -- day of week: the day with that weekday in the Monday-based week of the date
-    let (year, month, day) : Int × Option Int × Option Int ←
-      match p.day_of_week with
-      | some dow =>
-        let m := orNow month now.month
-        let d := orNow day now.day
-        if !validYMD year m d then throw "ValueError"
-        else if decide (dow < 0 ∨ dow > 6) then throw "ValueError"
-        else
-          let ord := Cal.ymd2ord year m d
-          let monday := ord - (ord + 6) % 7
-          let r := monday + dow
-          if decide (r < 1 ∨ r > 3652059) || decide (monday - 1 < 1) then throw "OverflowError"
-          else
-            let (y', m', d') := Cal.ord2ymd r
-            pure (y', some m', some d')
-      | none => pure (year, month, day)
-    -- meridiem
-    let hour : Option Int ←
-      match p.meridiem with
-      | some pm =>
-        match p.hour with
-        | none => throw "ValueError"
-        | some h =>
-          if meridiemTooLate h p.minute p.second p.microsecond then throw "ValueError"
-          else pure (some (h % 12 + (if pm then 12 else 0)))
-      | none => pure p.hour
-    let month : Int := match month with
-      | some m => m
-      | none => if p.year.isSome then orNow p.month 1 else orNow p.month now.month
-    let day : Int := match day with
-      | some d => d
-      | none => if p.year.isSome || p.month.isSome then orNow p.day 1 else orNow p.day now.day
-    pure ⟨year, month, day, hour.getD 0, p.minute.getD 0, p.second.getD 0, p.microsecond.getD 0, p.tz⟩
+    let (month, day) ← checkDayOfYear p year month day
+    let (year, month, day) ← checkDayOfWeek p now year month day
+    let hour ← checkMeridiem p
+    pure (checkFinal p now year month day hour)
 
 /-! ### `Formatter.parse` -/
 
